@@ -308,7 +308,12 @@ def compile_cpp(out_cpp, main_src, exe, ndjson=True, sanitize=False, opt="-O0", 
 
     def cc(src):
         obj = src + ".o"
-        p = run(["g++"] + flags + inc + ["-c", src, "-o", obj], timeout=900)
+        try:
+            # 8 GiB address-space cap and 10 min per translation unit: a compile that needs more is
+            # reported as a resource failure, not left to take the machine down
+            p = run(["bash", "-c", 'ulimit -v 8388608; exec "$@"', "cc", "g++"] + flags + inc + ["-c", src, "-o", obj], timeout=600)
+        except subprocess.TimeoutExpired:
+            return obj, -9, "COMPILE-TIMEOUT " + src
         return obj, p.returncode, p.stderr.decode(errors="replace")
 
     with concurrent.futures.ThreadPoolExecutor(max_workers=min(len(srcs), NCPU)) as ex:
